@@ -142,5 +142,68 @@ Section Delta.
     intros Hb. unfold change, delta_join. rewrite rsum_zsum.
     apply zsum_map_ext''. intros e2 Hin. now apply contrib_left.
   Qed.
+
+  (** ** the [add] array: a new bucket holding only the target, inserted before position [k] *)
+  Definition pick_new (k : Z) (e2 : elt) : Z := if k <=? r e2 then bef e2 else aft e2.
+
+  Definition contrib_add (e2 : elt) : Z -> Z := fun i =>
+    let b2 := r e2 in
+    if b0 <? b2 then pt (b2 + 1) (aft e2 - bef e2) i
+    else if b2 <? b0 then pt b2 (bef e2 - aft e2) i
+    else pt (b0 + 1) (aft e2 - tie e2) i + pt b0 (bef e2 - tie e2) i.
+
+  Definition addf (i : Z) : Z := zsum (map (fun e2 => contrib_add e2 i) others).
+  Definition delta_new (k : Z) : Z := zsum (map (fun e2 => pick_new k e2 - pick b0 e2) others).
+
+  Lemma contrib_add_right e2 (k : nat) : In e2 others ->
+    rsum (b0 + 1) (S k) (contrib_add e2) = pick_new (b0 + 1 + Z.of_nat k) e2 - pick b0 e2.
+  Proof.
+    intros Hin. pose proof (r_nonneg _ Hin) as Hr. unfold contrib_add, pick_new, pick.
+    destruct (b0 <? r e2) eqn:A.
+    - rewrite rsum_pt.
+      repeat match goal with |- context [?x <? ?y] => destruct (Z.ltb_spec x y) end;
+      repeat match goal with |- context [?x <=? ?y] => destruct (Z.leb_spec x y) end; simpl; lia.
+    - destruct (r e2 <? b0) eqn:B.
+      + rewrite rsum_pt.
+        repeat match goal with |- context [?x <? ?y] => destruct (Z.ltb_spec x y) end;
+        repeat match goal with |- context [?x <=? ?y] => destruct (Z.leb_spec x y) end; simpl; lia.
+      + rewrite rsum_add, !rsum_pt.
+        repeat match goal with |- context [?x <? ?y] => destruct (Z.ltb_spec x y) end;
+        repeat match goal with |- context [?x <=? ?y] => destruct (Z.leb_spec x y) end; simpl; lia.
+  Qed.
+
+  Theorem add_prefix_right (k : nat) : rsum (b0 + 1) (S k) addf = delta_new (b0 + 1 + Z.of_nat k).
+  Proof. unfold addf, delta_new. rewrite rsum_zsum. apply zsum_map_ext''. intros e2 Hin. now apply contrib_add_right. Qed.
+
+  Lemma contrib_add_left e2 (k : nat) : In e2 others -> 0 <= b0 - Z.of_nat k ->
+    rsum (b0 - Z.of_nat k) (S k) (contrib_add e2) = pick_new (b0 - Z.of_nat k) e2 - pick b0 e2.
+  Proof.
+    intros Hin Hb. pose proof (r_nonneg _ Hin) as Hr. unfold contrib_add, pick_new, pick.
+    destruct (b0 <? r e2) eqn:A.
+    - rewrite rsum_pt.
+      repeat match goal with |- context [?x <? ?y] => destruct (Z.ltb_spec x y) end;
+      repeat match goal with |- context [?x <=? ?y] => destruct (Z.leb_spec x y) end; simpl; lia.
+    - destruct (r e2 <? b0) eqn:B.
+      + rewrite rsum_pt.
+        repeat match goal with |- context [?x <? ?y] => destruct (Z.ltb_spec x y) end;
+        repeat match goal with |- context [?x <=? ?y] => destruct (Z.leb_spec x y) end; simpl; lia.
+      + rewrite rsum_add, !rsum_pt.
+        repeat match goal with |- context [?x <? ?y] => destruct (Z.ltb_spec x y) end;
+        repeat match goal with |- context [?x <=? ?y] => destruct (Z.leb_spec x y) end; simpl; lia.
+  Qed.
+
+  Theorem add_prefix_left (k : nat) : 0 <= b0 - Z.of_nat k ->
+    rsum (b0 - Z.of_nat k) (S k) addf = delta_new (b0 - Z.of_nat k).
+  Proof. intros Hb. unfold addf, delta_new. rewrite rsum_zsum. apply zsum_map_ext''. intros e2 Hin. now apply contrib_add_left. Qed.
+
+  (** nothing is ever written at the target's own bucket in [change] *)
+  Lemma change_at_b0 : change b0 = 0.
+  Proof.
+    unfold change. rewrite (zsum_map_ext'' _ _ (fun _ => 0)).
+    - clear. induction others as [|a l IH]; simpl; lia.
+    - intros e2 Hin. pose proof (r_nonneg _ Hin). unfold contrib, pt.
+      repeat match goal with |- context [?x <? ?y] => destruct (Z.ltb_spec x y) end;
+      repeat match goal with |- context [?x =? ?y] => destruct (Z.eqb_spec x y) end; lia.
+  Qed.
 End Delta.
 
